@@ -195,6 +195,41 @@ theorem insert_record_only_adds (recs : List Rec) (r : Rec) (at_ : Option Nat) (
   obtain ⟨k, hk⟩ := insertRecord_eq_insertAt recs r at_ active
   exact ⟨⟨k, hk⟩, hk ▸ insertAt_sublist recs k r⟩
 
+/-- **Position of `insert_record`.** If `x` is the last record of the new record's name
+    inside the active problem, the new record is put directly after `x`. -/
+theorem insert_record_after_last (a b : List Rec) (x r : Rec) (active : Int)
+    (hname : x.name = r.name)
+    (hx : nProblems (a ++ [x]) - 1 = active)
+    (hlast : ∀ (a' : List Rec) (y : Rec) (b' : List Rec), b = a' ++ y :: b' →
+      ¬(nProblems (a ++ [x]) - 1 + nProblems (a' ++ [y]) = active ∧ y.name = r.name)) :
+    insertRecord (a ++ x :: b) r none active = a ++ x :: r :: b := by
+  unfold insertRecord
+  have hsplit : a ++ x :: b = (a ++ [x]) ++ b := by simp
+  have h1 : scanLast active (fun c => c.name == r.name) (a ++ x :: b) 0 (-1) none = some a.length := by
+    rw [hsplit, scanLast_append, scanLast_append]
+    simp only [scanLast]
+    have hcur : (if x.name == "PROBLEM" then -1 + nProblems a + 1 else -1 + nProblems a)
+        = nProblems (a ++ [x]) - 1 := by
+      by_cases hp : (x.name == "PROBLEM") = true
+      · simp [nProblems, hp, List.countP_append]; omega
+      · simp [nProblems, hp, List.countP_append]; omega
+    rw [hcur]
+    have hhit : ((nProblems (a ++ [x]) - 1 == active) && (x.name == r.name)) = true := by
+      simp [hx, hname]
+    rw [hhit]
+    simp only [↓reduceIte, Nat.zero_add]
+    rw [scanLast_none]
+    intro a' y b' hb hy
+    apply hlast a' y b' hb
+    refine ⟨?_, by simpa using hy.2⟩
+    have := hy.1
+    have h2 : -1 + nProblems (a ++ [x]) = nProblems (a ++ [x]) - 1 := by omega
+    omega
+  simp only [h1, Option.getD_some, insertAt]
+  have hlen : a.length + 1 = (a ++ [x]).length := by simp
+  rw [hsplit, hlen, List.take_left, List.drop_left]
+  simp
+
 /-- `remove_records` keeps every other record, unchanged, in order. -/
 theorem remove_records_frame (recs rm : List Rec) :
     removeRecords recs rm = recs.filter (fun r => !rm.contains r) ∧
